@@ -112,6 +112,23 @@ def check(prog, rep):
     rep.saw("mutators", [m.qual for m, _d, _v in mutators])
     rep.saw("private helpers that edit the model", sorted(q for q, sm in summaries.items() if sm["writes"]))
 
+    # private helpers that edit the model are entered with caches that describe the model: an exception that leaves
+    # such a helper between its write and the invalidation leaves the edit behind with the old caches (the public
+    # mutator's own walk sees the helper call as one step and cannot see inside it)
+    for hq, sm in sorted(summaries.items()):
+        if not sm["writes"]:
+            continue
+        h = next((x for x in P.methods.values() if x.qual == hq), None)
+        if h is None or h is inval or h is init:
+            continue
+        exits_h, _ma_h = analyze(h.node.body, make_transfer(), frozenset({"clean"}), may_raise, implicit="before")
+        bad_h = [(k, n) for k, n, f in exits_h if k in ("raise", "implicit-raise") and "clean" not in f]
+        hw = sorted({a for a, _n in attr_writes(h.node, {"self"}) if a in model_attrs})
+        rep.ob("R13.1", h.qual.split(":")[1], not bad_h,
+               "no exception can leave the helper between a write and the invalidation" if not bad_h else
+               f"an exception raised at line {bad_h[0][1].lineno} ({src(bad_h[0][1])[:60]}) leaves the helper after {', '.join('self.' + a for a in hw) or 'a model field'} was already modified and before {inval_name}() ran: "
+               f"the rejected edit is kept (e.g. the sense is flipped), the caches still describe the old model",
+               loc=f"{h.module.rel}:{bad_h[0][1].lineno}" if bad_h else h.loc, detail="helper-exception-exit", robust=True)
     from ..astutil import dominating_guards as _dg
     for m, ws, via in mutators:
         # "nothing to do" shortcuts: an exit taken BEFORE the edit because the new value compares equal to the stored one.
